@@ -61,7 +61,7 @@ def gen_prog(rng, i):
 
 def run_prog(prog):
     r = driver.run_inproc({"test_a.py": prog["source"]}, prog["flags"])
-    out = {"session_exc": r["session_exc"], "tb": r.get("session_tb"), "module_exc": r["module_exc"], "replacements": r["replacements"].get("test_a.py"),
+    out = {"session_exc": r["session_exc"], "tb": r.get("session_tb"), "module_exc": r["module_exc"], "replacements": r["replacements"].get("test_a.py"), "obsolete": r.get("obsolete"),
            "raw": r["raw_new_code"].get("test_a.py"), "read_text": r["read_text"].get("test_a.py")}
     after = r["files"]["test_a.py"]
     try:
@@ -135,6 +135,22 @@ def run(ctx: Ctx):
     ctx.coverage["correspondence"]["rewrite"] = {"files": len(terms), "mismatches": len(bad)}
     if bad:
         ctx.report(f"Model/Rewrite.v and implementation differ on {len(bad)} recorded replacement sets", {"kind": "rewrite", "indices": bad[:10]}, no_input=True, kind="correspondence")
+    # the filter of changes inside deleted / replaced nodes vs Model/Obsolete.v
+    from ..core import g_bool, g_list, g_nat, g_pair
+    oterms, oprogs = [], []
+    for p, o in zip(progs, outs):
+        ob = o.get("obsolete")
+        if not ob or "error" in ob or not ob["changes"]:
+            continue
+        oterms.append(g_pair(g_list(ob["changes"], lambda c: "{| c_removes := %s; c_chain := %s |}" % (g_bool(c[0]), g_list(c[1], g_nat))), g_list(ob["kept"], g_nat)))
+        oprogs.append(p)
+        ctx.dist("obsolete.dropped=%d" % min(len(ob["changes"]) - len(ob["kept"]), 3))
+    obad = coq_eval_shards(ctx, "obsolete", "Model.Obsolete Corr.ObsoleteCorr", "case", oterms, "mismatches", chunk=200)
+    ctx.coverage["traces_validated_against_impl"] += len(oterms)
+    ctx.coverage["correspondence"]["without_obsolete_changes"] = {"change_lists": len(oterms), "mismatches": len(obad)}
+    for j in obad[:5]:
+        ctx.report("Model/Obsolete.v and without_obsolete_changes differ on the approved changes of a program", {"kind": "prog", "source": oprogs[j]["source"], "flags": oprogs[j]["flags"]},
+                   no_input=True, kind="correspondence")
     ctx.sample({"program_tail": progs[0]["source"][-500:], "flags": progs[0]["flags"], "replacements": outs[0]["replacements"]})
     # real sessions
     m = 64 if not ctx.thorough else 800
